@@ -1756,6 +1756,28 @@ pub fn gen(rng: &mut Rng, tier: &str, out: &mut Vec<String>) {
             }
         }
     }
+    // tiny / huge normalisation (eager `fast_quantized_cdf` vs the lazy model's own arithmetic)
+    for _ in 0..2 * k {
+        for is32 in [true, false] {
+            let f = if is32 { "f32" } else { "f64" };
+            let mut idx = 0usize;
+            for (b, ps) in FP_BP {
+                for p in ps.iter() {
+                    for regime in 0..TINY_REGIMES.len() {
+                        let (v, sum) = tiny_norm_case(rng, is32, *p, regime);
+                        let tl = show_list(to_bits_list(&v, is32));
+                        let tok = if idx % 2 == 0 { "-".to_string() } else { norm_token(Some(sum), is32) };
+                        let ctor = ["cont", "ncdec", "ncenc"][idx % 3];
+                        idx += 1;
+                        let qmax = if *p == *b { pow2(*b).wrapping_sub(1) } else { pow2(*p) - 1 };
+                        let stride = (qmax / 509).max(1);
+                        out.push(format!("quant.fast {} {} {:x} {:x} {} {}", ctor, f, b, p, tok, tl));
+                        out.push(format!("quant.lazy {} {:x} {:x} {} {} | table | dec 0 | dec {:x} | sweep 0 {:x} {:x}", f, b, p, tok, tl, qmax, qmax, stride));
+                    }
+                }
+            }
+        }
+    }
     // directed length classes around 2^B (B = Probability::BITS): the length must be compared
     // before it is narrowed to `Probability`; all zeros with one spike (first / index 2^B-1 / last)
     for is32 in [true, false] {
@@ -2138,10 +2160,18 @@ where
             None => reference = Some((name, cur)),
             Some((rname, rcur)) => {
                 if *rcur != cur {
-                    let what = if rcur.is_some() != cur.is_some() { "disagree on acceptance" } else { "build different models" };
-                    rep.fail("C05", format!("{} => `{}` and `{}` {}", line(name), rname, name, what));
+                    let l = if *name == "lazy" { lazy_line.clone() } else { line(name) };
+                    let what = match (rcur, cur) {
+                        (Some(a), Some(b)) => {
+                            let i = (0..a.len().min(b.len())).find(|&i| a[i] != b[i]).unwrap_or(a.len().min(b.len()));
+                            let row = |t: &Vec<Triple>| t.get(i).map(|e| format!("({:x}, {:x})", e.1, e.2)).unwrap_or("-".into());
+                            format!("build different models from the same arguments: symbol {:x} is {} in `{}` and {} in `{}`", i, row(a), rname, row(b), name)
+                        }
+                        _ => "disagree on acceptance".to_string(),
+                    };
+                    rep.fail("C05", format!("{} => `{}` and `{}` {}", l, rname, name, what));
                     if rcur.is_some() != cur.is_some() {
-                        rep.fail("C19", format!("{} => `{}` and `{}` disagree on acceptance", line(name), rname, name));
+                        rep.fail("C19", format!("{} => `{}` and `{}` disagree on acceptance", l, rname, name));
                     }
                 }
             }
@@ -2559,6 +2589,280 @@ where
     None
 }
 perfect_combos!(dispatch_oracle_c09, oracle_c09_one, (rng: &mut Rng, rep: &mut Report) (rng, rep) -> Option<Vec<u128>>);
+
+// ---- C20 class "caller-chosen safe-trait parameters that are not stable" -------------------
+
+/// how an adversarial `AsRef<[F]>` buffer answers its `k`-th call (counted from a shared counter
+/// that the oracle resets before each query)
+#[derive(Clone, Copy, Debug)]
+enum BufMode {
+    /// the full slice for the first `k` calls, then only the first `short` entries
+    ShrinkAfter(usize, usize),
+    /// only the first `short` entries for the first `k` calls, then the full slice
+    GrowAfter(usize, usize),
+    /// alternates between the full slice and the first `short` entries
+    Alternate(usize),
+    /// the full slice for the first `k` calls, then an empty slice
+    EmptyAfter(usize),
+}
+
+/// a buffer whose `as_ref()` is not stable — legal, since `AsRef` is a safe trait
+struct AdvPmf<F> {
+    full: Vec<F>,
+    mode: BufMode,
+    calls: std::rc::Rc<std::cell::Cell<usize>>,
+}
+impl<F> AsRef<[F]> for AdvPmf<F> {
+    fn as_ref(&self) -> &[F] {
+        let c = self.calls.get();
+        self.calls.set(c + 1);
+        let short = |n: usize| &self.full[..n.min(self.full.len())];
+        match self.mode {
+            BufMode::ShrinkAfter(k, n) => if c < k { &self.full } else { short(n) },
+            BufMode::GrowAfter(k, n) => if c < k { short(n) } else { &self.full },
+            BufMode::Alternate(n) => if c % 2 == 0 { &self.full } else { short(n) },
+            BufMode::EmptyAfter(k) => if c < k { &self.full } else { short(0) },
+        }
+    }
+}
+
+/// a `Borrow<usize>` symbol whose `borrow()` is not stable
+struct FlipSym {
+    vals: [usize; 2],
+    calls: std::cell::Cell<usize>,
+}
+impl std::borrow::Borrow<usize> for FlipSym {
+    fn borrow(&self) -> &usize {
+        let c = self.calls.get();
+        self.calls.set(c + 1);
+        &self.vals[c % 2]
+    }
+}
+
+/// **C20, lazy model over a buffer whose `AsRef` is not stable** (and symbols whose `Borrow` is
+/// not stable): any answer — `Some`, `None`, an ordinary panic — is acceptable; a std UB-check
+/// abort kills the process, and the panic hook then reports the case announced with `set_case`
+fn oracle_adv_buffer<F, Pr, const P: usize>(rng: &mut Rng, rep: &mut Report) -> Option<Vec<u128>>
+where
+    F: Fl + AsPrimitive<Pr>,
+    Pr: BitArray + AsPrimitive<usize> + AsPrimitive<F> + Into<u32>,
+    usize: AsPrimitive<Pr> + AsPrimitive<F>,
+    u32: AsPrimitive<Pr>,
+{
+    use constriction::stream::{stack::AnsCoder, Decode, Encode};
+    let is32 = F::NAME == "f32";
+    let n = (4 + rng.next() % 8) as usize;
+    let n = n.min((pow2(P as u32) as usize).saturating_sub(2)).max(2);
+    let v: Vec<f64> = (0..n).map(|_| 0.1 + ((rng.next() >> 11) as f64 / (1u64 << 53) as f64)).collect();
+    let tbl = to_bits_list(&v, is32);
+    let probs: Vec<F> = tbl.iter().map(|&b| F::from_bits_u(b)).collect();
+    let sum: F = probs.iter().copied().sum();
+    let short = (n / 3).max(1).min(n - 1);
+    let mut modes: Vec<BufMode> = Vec::new();
+    for k in 0..5 {
+        modes.push(BufMode::ShrinkAfter(k, short));
+        modes.push(BufMode::GrowAfter(k, short));
+        modes.push(BufMode::EmptyAfter(k));
+    }
+    modes.push(BufMode::Alternate(short));
+    modes.push(BufMode::Alternate(0));
+    let qmax = pow2(P as u32) - 1;
+    for mode in modes {
+        for with_norm in [true, false] {
+            let desc = |op: &str| {
+                format!(
+                    "quant.lazy {} {:x} {:x} {} {} | {} # lazy model over an AsRef buffer that is not stable: {:?} (counter reset before the query)",
+                    F::NAME, Pr::BITS, P, if with_norm { format!("{:x}", sum.bits_u()) } else { "-".into() }, show_list(tbl.clone()), op, mode
+                )
+            };
+            let calls = std::rc::Rc::new(std::cell::Cell::new(0usize));
+            set_case(&desc("new"));
+            rep.eval("C20");
+            rep.count(&format!("any.advbuf.{}", format!("{:?}", mode).split('(').next().unwrap()));
+            let built = guarded(|| {
+                LazyContiguousCategoricalEntropyModel::<Pr, F, AdvPmf<F>, P>::from_floating_point_probabilities_fast(
+                    AdvPmf { full: probs.clone(), mode, calls: calls.clone() },
+                    if with_norm { Some(sum) } else { None },
+                )
+            });
+            let model = match built {
+                Ok(Ok(m)) => m,
+                _ => {
+                    rep.count("any.advbuf.ctor-rejected-or-panicked");
+                    continue;
+                }
+            };
+            let mut symbols: Vec<usize> = vec![0, 1, short.saturating_sub(1), short, short + 1, n - 1, n, n + 1, 2 * n, usize::MAX];
+            symbols.dedup();
+            for &sy in &symbols {
+                set_case(&desc(&format!("enc {:x}", sy)));
+                calls.set(0);
+                rep.eval("C20");
+                let r = guarded(|| model.left_cumulative_and_probability(sy).map(|(c, p)| (to_u128(c), to_u128(p.get()))));
+                rep.count(match r {
+                    Ok(Some(_)) => "any.advbuf.enc.some",
+                    Ok(None) => "any.advbuf.enc.none",
+                    Err(_) => "any.advbuf.enc.panic",
+                });
+                // a symbol whose `Borrow` flips between an in-support and this value
+                set_case(&desc(&format!("enc flip({:x},{:x})", 0, sy)));
+                calls.set(0);
+                rep.eval("C20");
+                let _ = guarded(|| model.left_cumulative_and_probability(FlipSym { vals: [0, sy], calls: std::cell::Cell::new(0) }).is_some());
+                let _ = guarded(|| model.left_cumulative_and_probability(FlipSym { vals: [sy, 0], calls: std::cell::Cell::new(0) }).is_some());
+            }
+            for q in [0, 1, qmax / 2, qmax.saturating_sub(1), qmax] {
+                set_case(&desc(&format!("dec {:x}", q)));
+                calls.set(0);
+                rep.eval("C20");
+                let _ = guarded(|| model.quantile_function(from_u128(q)).0);
+            }
+            set_case(&desc("support_size"));
+            calls.set(0);
+            rep.eval("C20");
+            let _ = guarded(|| model.support_size());
+            // through an ANS coder: encode symbols across and beyond the support, then decode
+            set_case(&desc("ans: encode 0, short, n-1, n | decode x4"));
+            calls.set(0);
+            rep.eval("C20");
+            let _ = guarded(|| {
+                let mut ans = AnsCoder::<u32, u64>::new();
+                for sy in [0usize, short, n - 1, n] {
+                    let _ = ans.encode_symbol(sy, &model);
+                }
+                let mut out = Vec::new();
+                for _ in 0..4 {
+                    out.push(ans.decode_symbol(&model).ok());
+                }
+                out
+            });
+        }
+    }
+    None
+}
+perfect_combos!(dispatch_oracle_adv_buffer, oracle_adv_buffer, (rng: &mut Rng, rep: &mut Report) (rng, rep) -> Option<Vec<u128>>);
+
+/// a `Distribution` that is not even a function: every call returns another value (interior
+/// mutability) — the leaky quantizer must still only answer or panic
+#[derive(Clone)]
+struct ChaosDist {
+    state: std::rc::Rc<std::cell::Cell<u64>>,
+    span: f64,
+}
+impl ChaosDist {
+    fn nextf(&self) -> f64 {
+        let mut r = Rng(self.state.get());
+        let x = (r.next() >> 11) as f64 / (1u64 << 53) as f64;
+        self.state.set(r.0);
+        x
+    }
+}
+impl Distribution for ChaosDist {
+    type Value = f64;
+    fn distribution(&self, _x: f64) -> f64 {
+        match (self.nextf() * 8.0) as u32 {
+            0 => f64::NAN,
+            1 => 2.0,
+            2 => -0.25,
+            _ => self.nextf() * 1.2 - 0.1,
+        }
+    }
+}
+impl Inverse for ChaosDist {
+    fn inverse(&self, _p: f64) -> f64 {
+        (self.nextf() - 0.5) * self.span
+    }
+}
+
+/// C20 for a non-deterministic distribution and symbols with an unstable `Borrow`
+fn oracle_chaos_leaky(rng: &mut Rng, rep: &mut Report) {
+    let state = std::rc::Rc::new(std::cell::Cell::new(rng.next()));
+    let (lo, hi) = (-((rng.next() % 100) as i16) - 1, (rng.next() % 100) as i16 + 1);
+    let desc = format!("quant.leaky i16 10 c {} {} rec <non-deterministic Distribution: every call returns another value (seed {:x})>", sym_hex("i16", lo as i128), sym_hex("i16", hi as i128), state.get());
+    set_case(&desc);
+    let quantizer = LeakyQuantizer::<f64, i16, u16, 12>::new(lo..=hi);
+    let model = quantizer.quantize(ChaosDist { state: state.clone(), span: 400.0 });
+    for s in (lo as i32 - 2)..=(hi as i32 + 2) {
+        rep.eval("C20");
+        let _ = guarded(|| model.left_cumulative_and_probability(s as i16).is_some());
+    }
+    for q in (0..4096u16).step_by(37) {
+        rep.eval("C20");
+        let _ = guarded(|| model.quantile_function(q).0);
+    }
+    rep.eval("C20");
+    let _ = guarded(|| model.symbol_table().count());
+    let _ = guarded(|| model.to_generic_encoder_model().support_size());
+    rep.count("any.chaos-distribution");
+}
+
+pub const TINY_REGIMES: &[&str] = &["scale-just-finite", "scale-at-overflow", "scale-just-inf", "scale-far-inf", "scale-tiny"];
+
+/// class "tiny but normal normalization" (and its mirror "huge normalization"): a table whose
+/// float sum sits just above / at / just below the point where `free_weight / sum` overflows the
+/// float type — there the eager constructors (shared `fast_quantized_cdf`) and the lazy model
+/// (own copy of the arithmetic) must still agree bit for bit (`0 * inf = NaN -> 0`, saturation).
+/// Returns the table (exact values of the target float type, as `f64`) and its left-to-right sum
+/// in the target float type.
+pub fn tiny_norm_case(rng: &mut Rng, is32: bool, p: u32, regime: usize) -> (Vec<f64>, f64) {
+    let unit = |r: &mut Rng| (r.next() >> 11) as f64 / (1u64 << 53) as f64;
+    let (fmax, fmin, sub) = if is32 { (f32::MAX as f64, f32::MIN_POSITIVE as f64, f32::from_bits(1) as f64) } else { (f64::MAX, f64::MIN_POSITIVE, f64::from_bits(1)) };
+    let n = (3 + rng.next() % 6) as usize;
+    let n = n.min((pow2(p) as usize).saturating_sub(2)).max(2);
+    let free = (pow2(p) - n as u128) as f64;
+    let star = free / fmax; // sums below this make `free / sum` overflow
+    let target = match regime {
+        0 => star * (1.0 + 1e-6 + unit(rng)),          // scale finite, close to MAX
+        1 => star * (1.0 + (rng.next() % 5) as f64 * if is32 { 6e-8 } else { 1.2e-16 } - if is32 { 1.2e-7 } else { 2.4e-16 }),
+        2 => star * (0.5 + 0.4999 * unit(rng)),        // scale = inf
+        3 => (star * 1e-3).max(fmin * (1.0 + unit(rng))), // far below, still a normal float
+        _ => fmax * *rng.pick(&[0.24, 0.5, 0.99]),     // mirror: scale underflows towards subnormal
+    };
+    // weights with a leading zero, interior zeros and subnormal entries
+    let mut w: Vec<f64> = (0..n).map(|_| if rng.chance(1, 4) { 0.0 } else { 0.05 + unit(rng) }).collect();
+    if rng.chance(1, 2) {
+        w[0] = 0.0;
+    }
+    if w.iter().all(|&x| x == 0.0) {
+        w[n - 1] = 1.0;
+    }
+    let tot: f64 = w.iter().sum();
+    let mut v: Vec<f64> = w.iter().map(|x| x / tot * target).collect();
+    if regime < 4 && rng.chance(1, 2) {
+        let i = (rng.next() % n as u64) as usize;
+        v[i] = sub * (1 + rng.next() % 3) as f64; // a subnormal entry
+    }
+    // round to the target type and sum left to right in it
+    if is32 {
+        let v32: Vec<f32> = v.iter().map(|&x| x as f32).collect();
+        let sum = v32.iter().fold(-0.0f32, |a, &b| a + b);
+        (v32.iter().map(|&x| x as f64).collect(), sum as f64)
+    } else {
+        let sum = v.iter().fold(-0.0f64, |a, &b| a + b);
+        (v, sum)
+    }
+}
+
+/// eager vs lazy (and the other `…_fast` kinds) on the tiny / huge normalisation class
+fn oracle_tiny_norm<F, Pr, const P: usize>(rng: &mut Rng, rep: &mut Report)
+where
+    F: Fl + AsPrimitive<Pr>,
+    Pr: BitArray + AsPrimitive<usize> + AsPrimitive<F>,
+    usize: AsPrimitive<Pr> + AsPrimitive<F>,
+{
+    let is32 = F::NAME == "f32";
+    for (regime, name) in TINY_REGIMES.iter().enumerate() {
+        for with_norm in [false, true] {
+            let (v, sum) = tiny_norm_case(rng, is32, P as u32, regime);
+            let tbl = to_bits_list(&v, is32);
+            let tok = if with_norm { norm_token(Some(sum), is32) } else { "-".to_string() };
+            let nb: Option<u128> = if with_norm { parse_hex(&tok) } else { None };
+            rep.count(&format!("any.tinynorm.{}.P{}.{}", F::NAME, P, name));
+            check_fast_ctors::<F, Pr, P>(&tbl, nb, &tok, None, rng, rep);
+        }
+    }
+}
+fp_combos!(dispatch_oracle_tiny_norm, oracle_tiny_norm, (rng: &mut Rng, rep: &mut Report) (rng, rep) -> ());
 
 /// directed *length* classes around `2^B` (`B = Probability::BITS ∈ {8, 16}`): a table whose
 /// length wraps to a small value when narrowed to `Probability` must still be rejected; all-zero
@@ -3330,6 +3634,30 @@ pub fn oracle(rng: &mut Rng, tier: &str, rep: &mut Report) {
             for (b, ps) in PERFECT_BP {
                 for p in ps.iter() {
                     dispatch_oracle_directed_perfect(f, *b, *p, rng, rep);
+                }
+            }
+        }
+    }
+    // caller-chosen safe-trait parameters that are not stable (AsRef buffer of the lazy model,
+    // Borrow symbols, a non-deterministic Distribution): no UB-check abort
+    for _ in 0..k {
+        for f in fnames {
+            for (b, ps) in PERFECT_BP {
+                for p in ps.iter() {
+                    dispatch_oracle_adv_buffer(f, *b, *p, rng, rep);
+                }
+            }
+        }
+        for _ in 0..20 {
+            oracle_chaos_leaky(rng, rep);
+        }
+    }
+    // tiny / huge normalisation: eager vs lazy at the overflow point of `free_weight / sum`
+    for _ in 0..4 * k {
+        for f in fnames {
+            for (b, ps) in FP_BP {
+                for p in ps.iter() {
+                    dispatch_oracle_tiny_norm(f, *b, *p, rng, rep);
                 }
             }
         }
